@@ -6,7 +6,11 @@ package saml2
 // reading the solver's assignment from a JSON file (replay of counterexamples and witnesses).
 
 import (
+	"bytes"
+	"compress/flate"
 	"encoding/json"
+	"io"
+	"runtime"
 	"fmt"
 	"strconv"
 	"sync"
@@ -224,3 +228,78 @@ func vPanicked(f func()) (p bool) {
 	f()
 	return false
 }
+
+// ---- C12: blobs and the inflater ----
+
+// vBlob builds real bytes with the solver's properties: the raw presentation is accepted by the
+// decoder (first byte 'Y') or is a DEFLATE stream inflating to inflated_len bytes whose first byte says
+// whether the decoder accepts the inflated message; inflate_err appends a reserved-type block after them.
+func vBlob(name string) []byte {
+	n := vxFresh(name)
+	if ok, _ := vx.inputs[n+".decode_ok"].(bool); ok {
+		return []byte("Yraw message accepted by the decoder")
+	}
+	T := int(vxI64(n + ".inflated_len"))
+	payload := bytes.Repeat([]byte{'x'}, T)
+	if ok, _ := vx.inputs[n+".inflated_decode_ok"].(bool); ok && T > 0 {
+		payload[0] = 'Y'
+	}
+	var buf bytes.Buffer
+	corrupt, _ := vx.inputs[n+".inflate_err"].(bool)
+	if corrupt {
+		fw, _ := flate.NewWriter(&buf, flate.NoCompression)
+		fw.Write(payload)
+		fw.Flush()
+		buf.WriteByte(0x07) // final block of reserved type 3: invalid
+	} else {
+		fw, _ := flate.NewWriter(&buf, flate.BestSpeed)
+		fw.Write(payload)
+		fw.Close()
+	}
+	return buf.Bytes()
+}
+
+func vDecodeOK(b []byte) bool { return len(b) > 0 && b[0] == 'Y' }
+
+func vxInflate(b []byte) ([]byte, error) { return io.ReadAll(flate.NewReader(bytes.NewReader(b))) }
+
+func vInflatedLen(b []byte) int64 {
+	out, _ := vxInflate(b)
+	return int64(len(out))
+}
+func vInflateErr(b []byte) bool {
+	_, err := vxInflate(b)
+	return err != nil
+}
+func vInflatedDecodeOK(b []byte) bool {
+	out, _ := vxInflate(b)
+	return vDecodeOK(out)
+}
+func vBytesEq(a, b []byte) bool { return bytes.Equal(a, b) }
+func vIsInflateOf(out, in []byte) bool {
+	x, _ := vxInflate(in)
+	return bytes.Equal(out, x)
+}
+
+var vxMemBase uint64
+
+func vMemMark() {
+	runtime.GC()
+	var ms runtime.MemStats
+	runtime.ReadMemStats(&ms)
+	vxMemBase = ms.TotalAlloc
+}
+
+// vMaterialised (native): bytes allocated since vMemMark, an upper estimate of what the inflater
+// materialised (io.ReadAll's growth allocates at most ~5x the final size).
+func vMaterialised() int64 {
+	var ms runtime.MemStats
+	runtime.ReadMemStats(&ms)
+	d := int64(ms.TotalAlloc - vxMemBase)
+	if d < 1<<17 {
+		return 0 // decompressor state and small buffers
+	}
+	return d
+}
+func vReadAllCalls() int      { return 0 }
+func vReadAllUnlimited() bool { return false }
